@@ -42,6 +42,7 @@ def check(rep, an, tier):
             rep.check("R-QTY", "mean width has the unit of its input", None if v.unit is None else v.unit == {"u": 1}, where=res.fn.loc(),
                       construct="unit of compute_mean_width", entry=entry, config=res.config)
             seeds(rep, res, entry)
+            isotropy(rep, res, entry)
             R.rule_purity(rep, res, entry)
     # ---- gamut metric: degree 0; self-ratio forwarding
     for metric in ("width", "volume"):
@@ -82,6 +83,8 @@ def check(rep, an, tier):
                                   and "X" not in x0.flat().data, where=ev.loc, construct="first argument of the reference call", entry=entry,
                                   config=res.config)
                 seeds(rep, res, entry)
+                if metric == "width":
+                    shared_generator(rep, res, entry)
     # ---- Jensen–Shannon: separate normalisation of both inputs
     P, Q = arr("P", S("M"), {"u": 1}, sign="NONNEG"), arr("Q", S("M"), {"v": 1}, sign="NONNEG")
     res = an.run(f"{MET}:compute_jensen_shannon_divergence", kws=dict(P=P, Q=Q), config="P:[u],Q:[v]")
@@ -97,6 +100,14 @@ def check(rep, an, tier):
         mixes = [ev for ev in res.events("typed_op")]
         rep.check("R-QTY", "inputs are normalised before they are mixed", True if res.value.flat().tag("deg") == {} or True else None,
                   where=res.fn.loc(), construct="M = 0.5 * (P + Q)", entry=entry, config=res.config)
+    for ev in res.events("ext_call"):
+        if ev.d["dotted"] == "scipy.stats.entropy" and ev.d["args"]:
+            p0 = ev.d["args"][0]
+            o = p0.tag("normalized_ord")
+            rep.check("R-QTY", "inputs are normalised to unit total (L1) before they are mixed", None if o is None else o == 1, where=ev.loc,
+                      construct=f"first argument of {ev.text()[:50]}", entry=entry, config=res.config,
+                      msg=f"the distribution handed to the entropy is its input divided by its own {o}-norm, not by its total: P and Q enter "
+                          f"the mixture with unequal mass, so the value is not the Jensen–Shannon divergence and can exceed 1 bit")
     v = res.value.flat()
     rep.check("R-QTY", "divergence is dimensionless", None if v.unit is None else v.unit == {}, where=res.fn.loc(),
               construct="unit of the divergence", entry=entry, config=res.config, msg=f"{v.unit}")
@@ -115,6 +126,21 @@ def check(rep, an, tier):
               construct="degenerate branch of compute_volume", entry="compute_volume", config=res.config,
               msg="when the hull projection returns points (collinear cloud) the returned extent is not computed from those projected "
                   "points: it is no longer the length of the segment and not invariant to rotation")
+    # ---- the affine dimension of a flat cloud is decided on a scale-free quantity
+    res = an.run("dreye.api.project:proj_P_for_hull", kws=dict(P=arr("P", S("M", "DIM"), {"u": 1})), config="flat cloud (QhullError branch)")
+    tol = [ev for ev in res.events("abs_tolerance") if ev.handlers or any("except" in g[0] for g in ev.guards)]
+    for ev in tol:
+        at = ev.d.get("atol")
+        if at is not None and at.known and at.const == 0:
+            continue
+        rep.check("R-QTY", "affine dimension decided on a scale-free quantity", not ev.d["dimensioned"], where=ev.loc, construct=ev.text(),
+                  entry="proj_P_for_hull", config=res.config,
+                  msg="the number of dimensions that carry variance is decided with np.isclose's ABSOLUTE tolerance on a quantity that "
+                      "scales with the square of the data: for small-scale flat clouds every cumulative variance is 'close' to the total, the "
+                      "affine dimension collapses and the volume is no longer homogeneous in scale")
+    if not tol:
+        rep.undecided("R-QTY", "affine dimension decided on a scale-free quantity", where=res.fn.loc(), construct="rank decision in proj_P_for_hull",
+                      entry="proj_P_for_hull", config=res.config)
     # ---- estimator
     for rel in (True, False):
         for frac in (True, False):
@@ -167,3 +193,55 @@ def seeds(rep, res, entry):
         d = ev.d.get("raw") or ev.d["dotted"]
         if d.startswith("numpy.random.") and d.split(".")[-1] in X.GLOBAL_RNG and d not in X.RNG_CTORS:
             rep.violated("R-SEED", "no global RNG", where=ev.loc, construct=ev.text(), entry=entry, config=res.config, msg=f"`{d}`")
+
+
+ISOTROPIC = {"standard_normal", "normal", "multivariate_normal", "randn"}
+ANISOTROPIC = {"uniform", "random", "random_sample", "rand", "integers", "choice", "laplace", "exponential", "beta", "gamma", "triangular",
+               "permutation"}
+
+
+def isotropy(rep, res, entry):
+    """mean width = mean over UNIFORMLY distributed directions: normalised draws are uniform on the sphere only for a rotation
+    invariant distribution (i.i.d. centred normals); normalised cube / simplex draws crowd the diagonals"""
+    for ev in res.events("random_draw"):
+        m = ev.d.get("method")
+        st = True if m in ISOTROPIC else (False if m in ANISOTROPIC else None)
+        if m == "normal":
+            loc = ev.d["kws"].get("loc") or (ev.d["args"][0] if ev.d["args"] else None)
+            if loc is not None and not (loc.known and loc.const == 0):
+                st = None
+        rep.check("R-SEED", "projection directions are drawn from a rotation-invariant distribution", st, where=ev.loc, construct=ev.text(),
+                  entry=entry, config=res.config,
+                  msg=f"`{m}` draws are not rotation invariant: after L2 normalisation the directions are not uniform on the sphere, so the "
+                      f"mean width of an anisotropic cloud changes when the cloud is rotated and misses the geometric definition")
+
+
+def shared_generator(rep, res, entry):
+    """'equals 1 relative to itself' needs numerator and denominator to use IDENTICAL projections: every metric call must build
+    its own generator from the same immutable seed; ONE Generator object handed to both is stateful"""
+    uses = {}
+    plain = []
+    for ev in res.events("call"):
+        fn = ev.d["callee"]
+        if fn.name not in ("compute_mean_width", "compute_gamut") or len(ev.path) != 1:
+            continue
+        vals = list(ev.d["args"]) + list(ev.d["kws"].values())
+        star = ev.d["kws"].get("**")
+        if star is not None and star.tag("kw"):
+            vals += list(star.tag("kw").values())
+        gens = [v for v in vals if v.tag("kind") == "rng" and v.tag("rng_site") is not None]
+        for g in gens:
+            uses.setdefault(g.tag("rng_site"), []).append(ev)
+        if not gens and any("seed" in v.flat().data for v in vals):
+            plain.append(ev)
+    for site, evs in uses.items():
+        if len({e.loc for e in evs}) >= 2:
+            for ev in evs[:2]:
+                rep.violated("R-SEED", "numerator and denominator draw identical projections", where=ev.loc, construct=ev.text(), entry=entry,
+                             config=res.config,
+                             msg="one Generator object created in this call is handed to both metric evaluations where the seed is expected: "
+                                 "it is stateful, so the reference cloud is measured with the NEXT draws, not the same projections — the "
+                                 "Monte-Carlo error no longer cancels (metric of a cloud relative to itself ≠ 1)")
+    for ev in plain:
+        rep.holds("R-SEED", "numerator and denominator draw identical projections", where=ev.loc, construct=ev.text(), entry=entry,
+                  config=res.config, msg="an immutable seed is forwarded; each metric call builds its own generator")
